@@ -24,7 +24,7 @@ func init() {
 	Register(&Check{
 		ID:          "C15",
 		Technique:   "complete enumeration of EnableCompression pairs, client extension offers and server extension replies on the real Dialer/Upgrader (handshake run in-process over scripted transports), followed by message flow under every sequence of <=3 write-compression setting calls; compression state is observed behaviourally, never read from fields",
-		Rule:        "families: pair (real Dialer <-> real Upgrader: 4 EnableCompression pairs x buffer sizes x every toggle sequence of length <=3 over {EnableWriteCompression(true|false), SetCompressionLevel(-2|0|1|9)} on either side), offer (12 scripted client offers x Upgrader.EnableCompression), reply (14 scripted server replies x Dialer.EnableCompression); complete product. 'accepts compressed' = verdict on a conformant RSV1 message from the independent encoder; 'compresses' = RSV1 on a data message written with write compression explicitly enabled. non-trivial = handshake completed and a non-default choice; distinct by observation hash",
+		Rule:        "families: pair (real Dialer <-> real Upgrader: 4 EnableCompression pairs x buffer sizes x every toggle sequence of length <=3 over {EnableWriteCompression(true|false), SetCompressionLevel(-2|0|1|9)} on either side), offer (22 scripted client offers x Upgrader.EnableCompression), reply (14 scripted server replies x Dialer.EnableCompression); complete product. 'accepts compressed' = verdict on a conformant RSV1 message from the independent encoder; 'compresses' = RSV1 on a data message written with write compression explicitly enabled. non-trivial = handshake completed and a non-default choice; distinct by observation hash",
 		Assumptions: []string{"a connection is never required to compress; it is forbidden to set RSV1 / accept RSV1 unless the 101 response announced permessage-deflate with both no_context_takeover parameters"},
 		Budget:      map[string]time.Duration{"quick": 100 * time.Second, "thorough": 15 * time.Minute},
 		Bound:       map[string]string{"quick": "complete product, toggle sequences <= 3, levels {-2,0,1,9}", "thorough": "complete product, toggle sequences <= 3, levels -2..9"},
@@ -258,6 +258,9 @@ var c15Offers = [][]string{
 	nil, {"permessage-deflate"}, {"permessage-deflate; server_no_context_takeover"}, {"permessage-deflate; client_no_context_takeover"},
 	{"permessage-deflate; server_no_context_takeover; client_no_context_takeover"}, {"permessage-deflate; client_max_window_bits"}, {"permessage-deflate; server_max_window_bits=10; client_max_window_bits=\"12\""},
 	{"foo, permessage-deflate"}, {"foo; x=1", "permessage-deflate"}, {"x-webkit-deflate-frame"}, {";malformed, permessage-deflate"}, {"permessage-deflate, permessage-deflate; client_max_window_bits"},
+	{"permessage-deflate; client_max_window_bits=16"}, {"permessage-deflate; client_max_window_bits=7"}, {"permessage-deflate; client_max_window_bits=abc"}, {"permessage-deflate; server_max_window_bits=16"},
+	{"permessage-deflate; server_max_window_bits=0; client_max_window_bits=99"}, {"permessage-deflate; client_max_window_bits=16, permessage-deflate"}, {"permessage-deflate; unknown_parameter=1"}, {"permessage-deflate; client_no_context_takeover=1"},
+	{"PERMESSAGE-DEFLATE"}, {"foo; bar=\"x, permessage-deflate\""},
 }
 
 func c15Offer(x *explore.Ctx, uc bool) {
@@ -288,8 +291,15 @@ func c15Offer(x *explore.Ctx, uc bool) {
 			offered = true
 		}
 	}
+	// "only if": a server may decline an offer (e.g. because of its parameters) - it must
+	// not announce what was not offered or not enabled
 	if wf {
-		x.Check(ann == (offered && uc), fmt.Sprintf("C15:announcement:enabled=%v", uc), "offer %q enabled=%v: announced=%v", offer, uc, ann)
+		x.Check(!ann || (offered && uc), fmt.Sprintf("C15:announcement:enabled=%v", uc), "offer %q enabled=%v: announced=%v", offer, uc, ann)
+	}
+	// a plain offer to a server with compression enabled is accepted (otherwise compression
+	// could never be used at all)
+	if len(offer) == 1 && (offer[0] == "permessage-deflate" || offer[0] == "permessage-deflate; server_no_context_takeover; client_no_context_takeover") && uc {
+		x.Check(ann, "C15:plain-offer-declined", "plain offer %q to an Upgrader with EnableCompression: not announced", offer)
 	}
 }
 
